@@ -5,6 +5,7 @@ import (
 	"encoding/xml"
 	"errors"
 	"io"
+	"net/url"
 	"strings"
 )
 
@@ -102,6 +103,12 @@ func hasEncryptedContent(f *zip.File) (bool, error) {
 // isFontObfuscation returns true if the algorithm is a font obfuscation method.
 // Font obfuscation is not DRM - it's just to prevent casual font extraction.
 func isFontObfuscation(algorithm string) bool {
+	// The two standard algorithm identifiers (neither contains the word
+	// "obfuscation"): IDPF font obfuscation and Adobe's font mangling
+	switch strings.TrimSpace(algorithm) {
+	case "http://www.idpf.org/2008/embedding", "http://ns.adobe.com/pdf/enc#RC":
+		return true
+	}
 	// Adobe font obfuscation
 	if strings.Contains(algorithm, "adobe.com") && strings.Contains(algorithm, "obfuscation") {
 		return true
@@ -116,12 +123,19 @@ func isFontObfuscation(algorithm string) bool {
 // isContentFile returns true if the URI refers to a content file that would
 // indicate DRM if encrypted.
 func isContentFile(uri string) bool {
-	uri = strings.ToLower(uri)
+	// The URI is a (possibly percent-encoded) reference: compare its decoded,
+	// trimmed form
+	if decoded, err := url.PathUnescape(uri); err == nil {
+		uri = decoded
+	}
+	uri = strings.ToLower(strings.TrimSpace(uri))
 
-	// Content files
+	// Content files (XHTML and SVG content documents, package-level XML)
 	if strings.HasSuffix(uri, ".xhtml") ||
+		strings.HasSuffix(uri, ".xht") ||
 		strings.HasSuffix(uri, ".html") ||
 		strings.HasSuffix(uri, ".htm") ||
+		strings.HasSuffix(uri, ".svg") ||
 		strings.HasSuffix(uri, ".xml") {
 		return true
 	}
